@@ -84,7 +84,7 @@ def run(spec, cfg=None, workers="auto", env=None, timeout=1800, simulate=None, d
     spec_file = spec if spec.endswith(".tla") else spec + ".tla"
     cfg = cfg or (spec_file[:-4] + ".cfg")
     meta = tempfile.mkdtemp(prefix="tlcmeta_")
-    jopts = ["-XX:+UseParallelGC", "-Xmx" + heap, "-Xss64m"]
+    jopts = ["-XX:+UseParallelGC", "-Xmx" + heap, "-Xss64m", "-Djava.io.tmpdir=" + meta]
     if dfs:
         jopts.append("-Dtlc2.tool.queue.IStateQueue=StateDeque")
     cmd = ["java"] + jopts + ["-cp", JAR, "tlc2.TLC", "-metadir", meta, "-noGenerateSpecTE",
